@@ -1216,6 +1216,63 @@ pub fn generate(repo: &PathBuf) -> Result<String, String> {
         }
     }
 
+    // (h) the unit file: the two format strings of the systemd backend of the `service-manager` crate the workspace locks
+    let lock = std::fs::read_to_string(repo.join("Cargo.lock")).map_err(|e| format!("Cargo.lock: {e}"))?;
+    let sm_version = lock
+        .split("[[package]]")
+        .find(|b| b.contains("name = \"service-manager\""))
+        .and_then(|b| b.lines().find_map(|l| l.trim().strip_prefix("version = \"").and_then(|v| v.strip_suffix('"')).map(|v| v.to_string())))
+        .ok_or("Cargo.lock: no service-manager package")?;
+    let home = std::env::var("CARGO_HOME").unwrap_or_else(|_| format!("{}/.cargo", std::env::var("HOME").unwrap_or_default()));
+    let mut systemd_rs = None;
+    if let Ok(rd) = std::fs::read_dir(format!("{home}/registry/src")) {
+        for e in rd.flatten() {
+            let p = e.path().join(format!("service-manager-{sm_version}/src/systemd.rs"));
+            if p.exists() {
+                systemd_rs = Some(p);
+            }
+        }
+    }
+    let systemd_rs = systemd_rs.ok_or_else(|| format!("service-manager-{sm_version}/src/systemd.rs not found under {home}/registry/src"))?;
+    let sd = parse_file(&systemd_rs)?;
+    let mk = free_fn(&sd, "make_service")?;
+    let mk_src = toks(&mk.block);
+    let lits: Vec<String> = {
+        struct L(Vec<String>);
+        impl<'ast> syn::visit::Visit<'ast> for L {
+            fn visit_macro(&mut self, m: &'ast syn::Macro) {
+                // string literals inside `writeln!(service, "…")`
+                let t = m.tokens.to_string();
+                if m.path.is_ident("writeln") {
+                    if let Some(i) = t.find('"') {
+                        if let Ok(l) = syn::parse_str::<syn::LitStr>(t[i..].split(" , ").next().unwrap_or("").trim_end_matches(')').trim()) {
+                            self.0.push(l.value());
+                        } else if let Some(j) = t.rfind('"') {
+                            if let Ok(l) = syn::parse_str::<syn::LitStr>(&t[i..=j]) {
+                                self.0.push(l.value());
+                            }
+                        }
+                    }
+                }
+            }
+        }
+        let mut l = L(vec![]);
+        syn::visit::Visit::visit_block(&mut l, &mk.block);
+        l.0
+    };
+    let exec_fmt = lits.iter().find(|l| l.starts_with("ExecStart=")).cloned().ok_or("service-manager make_service: no `ExecStart=` line")?;
+    let env_fmt = lits.iter().find(|l| l.starts_with("Environment=")).cloned().ok_or("service-manager make_service: no `Environment=` line")?;
+    let compact_mk = mk_src.replace(' ', "");
+    let args_sep = if compact_mk.contains(".collect::<Vec<String>>().join(\"\u{20}\")") || compact_mk.contains(".join(\"\")") {
+        // `toks` prints the literal `" "`; with the blanks removed it reads `""`
+        if mk_src.contains(". join (\" \")") { " ".to_string() } else { return Err("service-manager make_service: the arguments are not joined by one blank".into()) }
+    } else {
+        return Err("service-manager make_service: how the arguments are joined is not a shape I know".into());
+    };
+    if !compact_mk.contains("letargs=ctx.args.clone().into_iter().map(|a|a.to_string_lossy().to_string())") {
+        return Err("service-manager make_service: the arguments are not rendered by to_string_lossy alone".into());
+    }
+
     // (e) clap surface
     let surface = uc::surface(repo)?;
 
@@ -1251,6 +1308,7 @@ pub fn generate(repo: &PathBuf) -> Result<String, String> {
     s.push_str(&lean_assoc("restartReplaceLiteral", "`InstallNodeServiceCtxBuilder { .. }` of `rpc::restart_node_service`, replacement service: `~.new.x` = local x derived from the new service name", &replace_lit));
     s.push_str(&lean_assoc("restartReplaceData", "`NodeServiceData { .. }` recorded for the replacement service", &replace_data));
     s.push_str(&lean_one("restartReplaceInstallLevel", "`restart_node_service` (replacement): level handed to `install`", &replace_install_level));
+    s.push_str(&format!("/-- service-manager {sm_version} `systemd.rs::make_service`: the `ExecStart=` line, the separator the arguments are joined with, the `Environment=` line (format strings as written there; no quoting or escaping function is applied to `program`, `args`, `var`, `val`) -/\ndef unitExecStartFormat : String := {}\ndef unitArgsSeparator : String := {}\ndef unitEnvironmentFormat : String := {}\n", lean_str(&exec_fmt), lean_str(&args_sep), lean_str(&env_fmt)));
     s.push_str(&lean_pairs("evmDisplay", "`Display for evmlib::Network`: variant ↦ printed subcommand word", &evm_display));
     s.push_str(&lean_pairs("logFormatAsStr", "`LogFormat::as_str`", &as_str));
     s.push_str(&lean_pairs("logFormatParse", "`LogFormat::parse_from_str`: accepted literal ↦ itself", &parse_from));
